@@ -1016,6 +1016,7 @@ func runC09(c *Ctx, r *Report) {
 	nilFieldContradictions(c, r, "C09.R11", 1, func(fn *ssa.Function) bool { // the server loop and the virtual connection: a nil timer ends the loop
 		return fn.Pkg != nil && fn.Pkg.Pkg.Path() == modPath+"/layer4"
 	})
+	c09ServerOwnsClose(c, r, "C09.R14")
 	c05R7(c, r, "C09.R12")  // setting the deadline of a virtual connection never blocks (the association's handler, its queue and then the server loop would wait with it)
 	c05UDPDeadline(c, r, "C09.R13") // ... and arms the timer that wakes a waiting Read
 }
@@ -1735,6 +1736,7 @@ func c09R7(c *Ctx, r *Report, rule string) {
 // ---------- C13 ----------
 
 func runC13(c *Ctx, r *Report) {
+	defer c13StatesAppended(c, r, "C13.R16")
 	// R1
 	r.rule("C13.R1", "ListenerWrapper.Provision compiles its routes with listenerHandler as fallback", 1)
 	if fn := c.Fn("layer4.(*ListenerWrapper).Provision"); fn != nil {
